@@ -83,7 +83,7 @@ fn other_model() -> AutosarModel {
     o
 }
 
-pub const SEEDS: [&str; 7] = ["refs", "nested", "twofile", "samever", "lenient", "empty", "lastfile"];
+pub const SEEDS: [&str; 8] = ["refs", "nested", "twofile", "samever", "mixedver", "lenient", "empty", "lastfile"];
 
 pub fn seed(name: &str) -> World {
     let m = AutosarModel::new();
@@ -171,6 +171,13 @@ pub fn seed(name: &str) -> World {
             let fe = s.create_sub_element(ElementName::FibexElements).unwrap();
             mk_ref(&fe, Some(&c), None, EnumItem::CanCluster);
             b.create_sub_element(ElementName::Elements).unwrap();
+        }
+        "mixedver" => {
+            // two loaded files of different versions that share a package; the newer one holds an element kind that the
+            // older version does not have (it cannot be created through the API here, only loaded)
+            let doc = |v: AutosarVersion, inner: &str| format!("<?xml version=\"1.0\" encoding=\"utf-8\"?><AUTOSAR {}><AR-PACKAGES><AR-PACKAGE><SHORT-NAME>a</SHORT-NAME><ELEMENTS>{inner}</ELEMENTS></AR-PACKAGE></AR-PACKAGES></AUTOSAR>", header_attrs(v));
+            m.load_buffer(doc(V50, "<APPLICATION-INTERFACE><SHORT-NAME>n</SHORT-NAME></APPLICATION-INTERFACE><CAN-CLUSTER><SHORT-NAME>c</SHORT-NAME></CAN-CLUSTER>").as_bytes(), "x.arxml", true).expect("mixedver x loads");
+            m.load_buffer(doc(V49, "<CAN-CLUSTER><SHORT-NAME>c</SHORT-NAME></CAN-CLUSTER><SYSTEM><SHORT-NAME>s</SHORT-NAME></SYSTEM>").as_bytes(), "y.arxml", true).expect("mixedver y loads");
         }
         "lenient" => {
             // 4.0.1 file with a child that only exists in later versions and a reference without DEST
@@ -356,6 +363,15 @@ fn positions(len: usize) -> Vec<usize> {
     p
 }
 
+/// with the extreme value (an addition to it overflows) for the full alphabet
+fn positions_ext(len: usize, extreme: bool) -> Vec<usize> {
+    let mut p = positions(len);
+    if extreme {
+        p.push(usize::MAX);
+    }
+    p
+}
+
 /// every applicable operation (valid and invalid argument combinations) in the current state
 pub fn ops_for(w: &World, profile: Profile) -> Vec<Op> {
     let l = live(&w.m);
@@ -391,7 +407,7 @@ pub fn ops_for(w: &World, profile: Profile) -> Vec<Op> {
                     for item in ITEM_NAMES {
                         ops.push(Op::CreateNamed(i, ElementNameOrd(*n), item));
                         if (all || core) && item == "a1" {
-                            for p in positions(nchildren) {
+                            for p in positions_ext(nchildren, all) {
                                 ops.push(Op::CreateNamedAt(i, ElementNameOrd(*n), item, p));
                             }
                         }
@@ -405,7 +421,7 @@ pub fn ops_for(w: &World, profile: Profile) -> Vec<Op> {
                 if !named || all {
                     ops.push(Op::Create(i, ElementNameOrd(*n)));
                     if all {
-                        for p in positions(nchildren) {
+                        for p in positions_ext(nchildren, all) {
                             ops.push(Op::CreateAt(i, ElementNameOrd(*n), p));
                         }
                         ops.push(Op::GetOrCreate(i, ElementNameOrd(*n)));
@@ -460,7 +476,7 @@ pub fn ops_for(w: &World, profile: Profile) -> Vec<Op> {
                     ops.push(Op::Copy(i, Src::Live(j)));
                 }
                 if all || core {
-                    for p in positions(nchildren) {
+                    for p in positions_ext(nchildren, all) {
                         ops.push(Op::MoveAt(i, Src::Live(j), p));
                         if all {
                             ops.push(Op::CopyAt(i, Src::Live(j), p));
@@ -542,7 +558,7 @@ pub fn ops_for(w: &World, profile: Profile) -> Vec<Op> {
                 ops.push(Op::SetComment(i, None));
             }
             if e.element_name() == ElementName::L2 || e.element_name() == ElementName::Elements {
-                for p in positions(nchildren) {
+                for p in positions_ext(nchildren, all) {
                     ops.push(Op::InsertText(i, p));
                     ops.push(Op::RemoveText(i, p));
                 }
